@@ -130,36 +130,213 @@ def removeIfEqualsLegacy (cacheLoaded : Bool) (s : Store) (n : Nat) (_old : Opti
 
 /-! ### two updaters without a lock
 
-An updater `set_if_equals(n, some o, new)` runs in two phases, as the code does:
-`rd` reads the current value of the real name and decides; `wr` writes.  A
-schedule interleaves the phases of the updaters. -/
+An updater (`set_if_equals(n, some o, new)`, `add_if_new(n, new)` or
+`remove_if_equals(n, some o)`) runs in two phases, as the code does: the read
+phase reads the current value (following symbolic refs for set/add) and
+decides; the write phase mutates the transport (one loose-file write, or the
+deletion of the loose file followed by the rewrite of packed-refs from the file
+as it is then).  A schedule interleaves the phases of the updaters. -/
+
+inductive UKind where
+  | set
+  | add
+  | rm
+  deriving DecidableEq, Repr
 
 structure Upd where
+  kind : UKind
   name : Nat
   old : Nat
   new : Nat
   deriving DecidableEq, Repr
 
-/-- per-updater state: not started / decided to write to a real name / finished with a result -/
+/-- per-updater state: not started / decided to write to a real name / decided
+to delete / finished with a result / `SymrefLoop` raised (add_if_new only) -/
 inductive Phase where
   | idle
   | willWrite (r : Nat)
+  | willDel (n : Nat)
   | done (ok : Bool)
+  | raised
   deriving DecidableEq, Repr
+
+/-- the read phase of an updater on store `s`: the decision taken -/
+def readPhase (s : Store) (u : Upd) : Phase :=
+  match u.kind with
+  | .set =>
+    let r := realName s u.name
+    if current s r = .sha u.old then .willWrite r else .done false
+  | .add =>
+    match follow s u.name with
+    | none => .raised
+    | some (names, contents) =>
+      match contents with
+      | some _ => .done false
+      | none => .willWrite (match names.getLast? with | some r => r | none => u.name)
+  | .rm => if current s u.name = .sha u.old then .willDel u.name else .done false
 
 /-- one scheduling step of updater `u` -/
 def stepUpd (s : Store) (u : Upd) (p : Phase) : Store × Phase :=
   match p with
-  | .idle =>
-    let r := realName s u.name
-    if current s r = .sha u.old then (s, .willWrite r) else (s, .done false)
+  | .idle => (s, readPhase s u)
   | .willWrite r => (write s r u.new, .done true)
+  | .willDel n => (del s n, .done true)
   | .done b => (s, .done b)
+  | .raised => (s, .raised)
 
 /-- run a schedule (`false` = updater A moves, `true` = updater B moves) -/
 def runSched (a b : Upd) : List Bool → Store × Phase × Phase → Store × Phase × Phase
   | [], st => st
   | false :: rest, (s, pa, pb) => let r := stepUpd s a pa; runSched a b rest (r.1, r.2, pb)
   | true :: rest, (s, pa, pb) => let r := stepUpd s b pb; runSched a b rest (r.1, pa, r.2)
+
+/-- the updater executed atomically: the compare-and-swap specification -/
+def specUpd (s : Store) (u : Upd) : Store × Phase :=
+  match u.kind with
+  | .set => let r := setIfEquals s u.name (some u.old) u.new; (r.2, .done r.1)
+  | .add =>
+    match addIfNew s u.name u.new with
+    | none => (s, .raised)
+    | some r => (r.2, .done r.1)
+  | .rm => let r := removeIfEquals s u.name (some u.old); (r.2, .done r.1)
+
+def Phase.finished : Phase → Bool
+  | .done _ => true
+  | .raised => true
+  | _ => false
+
+def Phase.pending : Phase → Bool
+  | .willWrite _ => true
+  | .willDel _ => true
+  | _ => false
+
+/-! ### containers with a packed-refs cache
+
+A `TransportRefsContainer` reads loose refs from the transport on every call but
+reads `packed-refs` once (`get_packed_refs` keeps `_packed_refs`; "TODO:
+invalidate the cache on repacking").  `Cache = none` is a container that has not
+loaded packed-refs yet.  `stepC` is the literal behaviour of one operation of a
+container with cache `c` on the transport state `s`: result, transport
+afterwards, cache afterwards. -/
+
+abbrev Cache := Option (List (Nat × Nat))
+
+/-- what a container with cache `c` sees -/
+def view (c : Cache) (s : Store) : Store :=
+  match c with
+  | none => s
+  | some p => { loose := s.loose, packed := p }
+
+def coherent (c : Cache) (s : Store) : Bool :=
+  match c with
+  | none => true
+  | some p => p == s.packed
+
+/-- does `follow` (as far as it gets) call `get_packed_refs`: some name it reads has no loose file -/
+def followLoads (v : Store) : Nat → Nat → Bool
+  | fuel, name =>
+    match lookup v.loose name with
+    | none => true
+    | some (.sha _) => false
+    | some (.sym t) =>
+      match fuel with
+      | 0 => false
+      | fuel' + 1 => followLoads v fuel' t
+
+inductive Op where
+  | set (n : Nat) (old : Option Nat) (new : Nat)
+  | rm (n : Nat) (old : Option Nat)
+  | add (n v : Nat)
+  /-- `git pack-refs` of one ref by an outside process: the loose SHA moves into packed-refs -/
+  | pack (n : Nat)
+  deriving DecidableEq, Repr
+
+inductive Res where
+  | ok (b : Bool)
+  | loop
+  deriving DecidableEq, Repr
+
+def packRef (s : Store) (n : Nat) : Bool × Store :=
+  match lookup s.loose n with
+  | some (.sha x) => (true, { loose := erase s.loose n, packed := insert s.packed n x })
+  | _ => (false, s)
+
+/-- one operation of a container whose packed-refs cache is `c` -/
+def stepC (c : Cache) (s : Store) : Op → Res × Store × Cache
+  | .set n old new =>
+    let v := view c s
+    let r := realName v n
+    let c' := if followLoads v 5 n then some v.packed else c
+    match old with
+    | some o => if current v r = .sha o then (.ok true, write s r new, c') else (.ok false, s, c')
+    | none => (.ok true, write s r new, c')
+  | .rm n old =>
+    let v := view c s
+    let c1 := if old.isSome && (lookup s.loose n).isNone then some v.packed else c
+    let go : Res × Store × Cache := (.ok true, del s n, some (erase s.packed n))
+    match old with
+    | some o => if current v n = .sha o then go else (.ok false, s, c1)
+    | none => go
+  | .add n x =>
+    let v := view c s
+    let c' := if followLoads v 5 n then some v.packed else c
+    match follow v n with
+    | none => (.loop, s, c')
+    | some (names, contents) =>
+      match contents with
+      | some _ => (.ok false, s, c')
+      | none => (.ok true, write s (match names.getLast? with | some r => r | none => n) x, c')
+  | .pack n => (.ok (packRef s n).1, (packRef s n).2, c)
+
+/-- the same operation with the cache dropped first (what the code does once
+every conditional update re-reads packed-refs) -/
+def stepF (c : Cache) (s : Store) (op : Op) : Res × Store × Cache :=
+  match op with
+  | .pack _ => stepC c s op
+  | _ => stepC none s op
+
+/-- the compare-and-swap specification of one operation on the transport state -/
+def specStep (s : Store) : Op → Res × Store
+  | .set n old new => let r := setIfEquals s n old new; (.ok r.1, r.2)
+  | .rm n old => let r := removeIfEquals s n old; (.ok r.1, r.2)
+  | .add n x =>
+    match addIfNew s n x with
+    | none => (.loop, s)
+    | some r => (.ok r.1, r.2)
+  | .pack n => (.ok (packRef s n).1, (packRef s n).2)
+
+/-- two containers A (`false`) and B (`true`) on one transport, operated one
+after the other in any order (`pack` is done by an outside process) -/
+def runCC (step : Cache → Store → Op → Res × Store × Cache) :
+    List (Bool × Op) → Store × Cache × Cache → List Res × (Store × Cache × Cache)
+  | [], st => ([], st)
+  | (who, op) :: rest, (s, ca, cb) =>
+    let r := step (if who then cb else ca) s op
+    let st' : Store × Cache × Cache :=
+      match op with
+      | .pack _ => (r.2.1, ca, cb)
+      | _ => if who then (r.2.1, ca, r.2.2) else (r.2.1, r.2.2, cb)
+    let q := runCC step rest st'
+    (r.1 :: q.1, q.2)
+
+def runSpec : List Op → Store → List Res × Store
+  | [], s => ([], s)
+  | op :: rest, s =>
+    let r := specStep s op
+    let q := runSpec rest r.2
+    (r.1 :: q.1, q.2)
+
+/-- along the run, is the cache of the acting container coherent with the transport before each of its operations? -/
+def cohRun : List (Bool × Op) → Store × Cache × Cache → Bool
+  | [], _ => true
+  | (who, op) :: rest, (s, ca, cb) =>
+    let r := stepC (if who then cb else ca) s op
+    let st' : Store × Cache × Cache :=
+      match op with
+      | .pack _ => (r.2.1, ca, cb)
+      | _ => if who then (r.2.1, ca, r.2.2) else (r.2.1, r.2.2, cb)
+    (match op with
+     | .pack _ => true
+     | _ => coherent (if who then cb else ca) s) && cohRun rest st'
 
 end BreezyVerif.C37
